@@ -582,12 +582,11 @@ class _CodeGen:
         elif type(ft) is barectf_config.RealFieldType:
             ft = typing.cast(barectf_config.RealFieldType, ft)
 
-            if ft.size == 32 and ft.alignment == 32:
+            if ft.size == 32:
                 s = 'float'
-            elif ft.size == 64 and ft.alignment == 64:
-                s = 'double'
             else:
-                s = 'uint64_t'
+                assert ft.size == 64
+                s = 'double'
 
             return _ArithCType(s, is_const)
         elif type(ft) is barectf_config.StringFieldType:
